@@ -153,6 +153,86 @@ def spec_audit(res, cfg, limit=None):
     return {"config": cfg, "problems": len(ps), **st}
 
 
+def corruption_selftest(res, limit=10):
+    """Demonstrates the binding of the trace specification: accepted implementation traces are corrupted in
+    one field (a start shifted, an end event dropped, an assignment moved, a buffer level or an indicator value
+    changed) and TLC must reject every corrupted trace.  An accepted corruption is a machinery failure."""
+    import copy
+    good = []
+    for r in res["results"]:
+        for t in r["traces"]:
+            if t.get("verdict", {}).get("accept") and t["trace"]["instants"]:
+                good.append(t["trace"])
+    good = good[:: max(1, len(good) // limit)][:limit]
+    bad, kinds = [], []
+    for tr in good:
+        # shift the first start one instant later
+        c = copy.deepcopy(tr)
+        inst = c["instants"]
+        moved = False
+        for k, i in enumerate(inst):
+            # (only a fixed-duration task: moving its start while its end stays is certainly not a behaviour)
+            starts = [e for e in i["ev"] if e["k"] == "start"
+                      and res["problems"][tr["pid"] - 1]["tasks"][e["task"] - 1]["kind"] == "F"]
+            if starts:
+                e = starts[0]
+                i["ev"].remove(e)
+                tgt = [j for j in inst if j["t"] == i["t"] + 1]
+                if tgt:
+                    tgt[0]["ev"].append(e)
+                else:
+                    inst.append({"t": i["t"] + 1, "ev": [e]})
+                c["instants"] = sorted([j for j in inst if j["ev"]], key=lambda j: j["t"])
+                moved = True
+                break
+        if moved:
+            bad.append(c)
+            kinds.append("start-shifted")
+        # drop an end event
+        c = copy.deepcopy(tr)
+        for i in c["instants"]:
+            ends = [e for e in i["ev"] if e["k"] == "end"]
+            if ends:
+                i["ev"].remove(ends[0])
+                c["instants"] = [j for j in c["instants"] if j["ev"]]
+                bad.append(c)
+                kinds.append("end-dropped")
+                break
+        # move a reported assignment
+        c = copy.deepcopy(tr)
+        for u, iv in enumerate(c["fin"]["uses"]):
+            if iv:
+                c["fin"]["uses"][u] = [iv[0] + 1, iv[1] + 1]
+                bad.append(c)
+                kinds.append("assignment-moved")
+                break
+        # change a reported buffer level / indicator value
+        c = copy.deepcopy(tr)
+        if any(c["fin"]["hist"]) and any(len(h) for h in c["fin"]["hist"]):
+            for h in c["fin"]["hist"]:
+                if h:
+                    h[-1][1] += 1
+                    break
+            bad.append(c)
+            kinds.append("buffer-level-changed")
+        c = copy.deepcopy(tr)
+        for i, v in enumerate(c["fin"]["ind"]):
+            if v:
+                c["fin"]["ind"][i] = [v[0] + 7]
+                bad.append(c)
+                kinds.append("indicator-changed")
+                break
+    if not bad:
+        return {"corrupted_traces": 0}
+    verdicts, st = tlc.validate_traces(res["problems"], bad)
+    accepted = [k for k, v in zip(kinds, verdicts) if v["accept"]]
+    if accepted:
+        raise RuntimeError(f"binding self-test failed: corrupted traces were accepted by TimelineTrace: {accepted}")
+    out = {"corrupted_traces": len(bad), "all_rejected": True, "by_kind": dict(collections.Counter(kinds)),
+           "a_rejection": {"kind": kinds[0], "why": verdicts[0]["why"]}, "tlc": st}
+    return out
+
+
 def encoding_runner(prop, family, directions, opts=None, audits=(), large=frozenset()):
     def run(tier, seed, replay=None, procs=16):
         if replay:
@@ -167,6 +247,8 @@ def encoding_runner(prop, family, directions, opts=None, audits=(), large=frozen
         viol = collect(prop, res, directions)
         cov = coverage_of(res)
         cov["exhaustive"] = (tier == "thorough")
+        if not replay:
+            cov["binding_selftest"] = corruption_selftest(res)
         if not replay and large:
             # beyond the exhaustive bounds: TLC simulation samples V(P) of larger random problems
             from families import large as F_large
